@@ -423,3 +423,204 @@ Proof.
     destruct (filter (fits dne p (next_same (m_note (p_first p)) P)) values) as [|v vs]; [exact IH|].
     now rewrite !kproj_cons, Hk1, Hkey.
 Qed.
+
+(* ------------------------------------------------------------------ the reference quantiser keeps a key well-formed *)
+Definition end_le (st : kst) (t : Z) : Prop :=
+  match st with KNone => True | KClosed _ b => b <= t | KOpen _ => False end.
+
+Lemma end_le_mono st t t' : end_le st t -> t <= t' -> end_le st t'.
+Proof. destruct st; cbn; auto; lia. Qed.
+
+Lemma kstep_closed_on st m st' : kst_closed st -> kstep true st m = Some st' ->
+  is_on m = true /\ st' = KOpen (m_time m) /\ end_le st (m_time m).
+Proof.
+  intros Hc KS. destruct (is_on m) eqn:Hon.
+  - destruct (kstep_on_inv _ _ _ _ Hon KS) as [-> Hst]. split; [reflexivity|]. split; [reflexivity|].
+    destruct Hst as [->|(a & b & -> & Hb)]; cbn; auto.
+  - destruct (kstep_off_inv _ _ _ _ Hon KS) as (a & -> & _). destruct Hc.
+Qed.
+
+Lemma kstep_on_end_le st m : is_on m = true -> end_le st (m_time m) -> kstep true st m = Some (KOpen (m_time m)).
+Proof.
+  intros Hon He. unfold kstep. rewrite Hon. destruct st as [|a|a b]; cbn in He; [reflexivity|destruct He|].
+  apply Z.leb_le in He. now rewrite He.
+Qed.
+
+Lemma krun_restart L s1 s2 st' : krun true s1 L = Some st' -> kst_closed s1 -> kst_closed s2 ->
+  (forall m, hd_error L = Some m -> end_le s2 (m_time m)) ->
+  exists st'', krun true s2 L = Some st'' /\ (kst_closed st' -> kst_closed st'').
+Proof.
+  destruct L as [|m L]; intros Hr H1 H2 Hh.
+  - exists s2. split; [reflexivity|auto].
+  - cbn [krun] in *. destruct (kstep true s1 m) as [s|] eqn:KS; [|discriminate].
+    destruct (kstep_closed_on _ _ _ H1 KS) as (Hon & -> & _).
+    rewrite (kstep_on_end_le s2 m Hon (Hh m eq_refl)). exists st'. auto.
+Qed.
+
+Lemma qnl_key_wf values dne : pos_steps values = true -> forall L st st',
+  kst_closed st -> krun true st L = Some st' -> kst_closed st' ->
+  exists st'', krun true st (qnl_key values dne L) = Some st'' /\ kst_closed st''.
+Proof.
+  intros Hpos. induction L as [| x | on off L IH] using list_ind2; intros st st' Hc Hr Hc'.
+  - exists st. split; [reflexivity|exact Hc].
+  - exists st. split; [reflexivity|exact Hc].
+  - cbn [krun] in Hr.
+    destruct (kstep true st on) as [s1|] eqn:KS1; [|discriminate].
+    destruct (kstep_closed_on _ _ _ Hc KS1) as (Hon & -> & Hend).
+    destruct (kstep true (KOpen (m_time on)) off) as [s2|] eqn:KS2; [|discriminate].
+    assert (Hoff : is_on off = false).
+    { destruct (is_on off) eqn:E; [|reflexivity]. unfold kstep in KS2. rewrite E in KS2. discriminate. }
+    destruct (kstep_off_inv _ _ _ _ Hoff KS2) as (a & [= <-] & -> & Hlt).
+    assert (Hhd : forall m, hd_error L = Some m -> m_time off <= m_time m).
+    { intros m Hm. destruct L as [|m' L']; [discriminate|]. injection Hm as ->. cbn [krun] in Hr.
+      destruct (kstep true (KClosed (m_time on) (m_time off)) m) as [s|] eqn:KS; [|discriminate].
+      now destruct (kstep_closed_on (KClosed (m_time on) (m_time off)) m s I KS) as (_ & _ & He). }
+    cbn [qnl_key].
+    set (cur := m_time off - m_time on).
+    set (valid := filter _ values).
+    destruct valid as [|v vs] eqn:Ev.
+    + destruct (krun_restart L (KClosed (m_time on) (m_time off)) st st' Hr I Hc) as (st2 & Hr2 & Hc2).
+      { intros m Hm. eapply end_le_mono; [exact Hend|]. specialize (Hhd m Hm). lia. }
+      exact (IH st st2 Hc Hr2 (Hc2 Hc')).
+    + assert (Hin : In (closest cur (v :: vs)) valid) by (rewrite Ev; apply closest_in; discriminate).
+      unfold valid in Hin. apply filter_In in Hin. destruct Hin as [Hv Hfit].
+      apply andb_true_iff in Hfit. destruct Hfit as [Hnext _].
+      pose proof (pos_steps_in _ _ Hpos Hv) as Hd.
+      set (d := closest cur (v :: vs)) in *.
+      cbn [krun]. rewrite KS1.
+      assert (KS2' : kstep true (KOpen (m_time on)) (set_time off (m_time on + d) (m_tf off)) =
+                     Some (KClosed (m_time on) (m_time on + d))).
+      { unfold kstep. change (is_on (set_time off (m_time on + d) (m_tf off))) with (is_on off). rewrite Hoff.
+        cbn [set_time m_time]. assert (E : m_time on <? m_time on + d = true) by (apply Z.ltb_lt; lia).
+        now rewrite E. }
+      rewrite KS2'.
+      destruct (krun_restart L (KClosed (m_time on) (m_time off)) (KClosed (m_time on) (m_time on + d)) st' Hr I I) as (st2 & Hr2 & Hc2).
+      { intros m Hm. destruct L as [|m' L']; [discriminate|]. injection Hm as ->. cbn [end_le].
+        now apply Z.leb_le in Hnext. }
+      exact (IH (KClosed (m_time on) (m_time on + d)) st2 I Hr2 (Hc2 Hc')).
+Qed.
+
+(* ------------------------------------------------------------------ assembling the channels *)
+Lemma kproj_in k l m : In m (kproj k l) -> In m l /\ is_note m = true /\ qkey m = k.
+Proof.
+  unfold kproj. intros H. apply filter_In in H. destruct H as [H1 H2]. apply andb_true_iff in H2.
+  destruct H2 as [H2 H3]. apply k2_eqb_eq in H3. auto.
+Qed.
+
+Lemma chan_pairs_in ch ps p : In p (chan_pairs ch ps) -> exists c, In (c, chan_pairs ch ps) ps.
+Proof.
+  unfold chan_pairs. destruct (dget Z.eqb ch ps) as [P|] eqn:G; [|intros []].
+  intros _. exact (dget_in Z.eqb _ _ _ G).
+Qed.
+
+Lemma pairings_good std s : (forall k, wf_key k s = true) ->
+  forall ch, Forall (good_pair ch) (chan_pairs ch (pairings_sorted NOTE_TYPES std true s)).
+Proof.
+  intros Hwf ch. destruct (pairings_wf std s Hwf) as [_ Hmap].
+  pose proof (pairings_note std true s) as Hnote. rewrite Forall_forall in Hnote.
+  apply Forall_forall. intros p Hp.
+  destruct (chan_pairs_in _ _ _ Hp) as (c & Hc). specialize (Hnote _ Hc). cbn [snd] in Hnote.
+  rewrite Forall_forall in Hnote. destruct (Hnote p Hp) as [Ton Toff].
+  specialize (Hmap ch (m_note (p_first p))).
+  assert (Hin : In (strip p) (cpairs None (kproj (ch, m_note (p_first p)) s))).
+  { rewrite <- Hmap. apply in_map. apply filter_In. split; [exact Hp|]. unfold pitchb. apply Z.eqb_refl. }
+  destruct (cpairs_closed _ _ _ Hin) as (off & Hoff). cbn [strip snd] in Hoff.
+  unfold p_second in Hoff. destruct (snd p) as [[i off']|] eqn:Hs; [|discriminate]. cbn in Hoff. injection Hoff as ->.
+  assert (Hst : strip p = (p_first p, Some off)) by (unfold strip, p_second; now rewrite Hs).
+  rewrite Hst in Hin. apply cpairs_in in Hin. destruct Hin as [[H1|H1] H2]; [|discriminate].
+  apply kproj_in in H1, H2. destruct H1 as (_ & _ & K1). destruct H2 as (_ & _ & K2).
+  unfold qkey in K1, K2.
+  assert (C1 : m_chan (p_first p) = ch) by congruence.
+  assert (C2 : m_chan off = ch) by congruence.
+  assert (N2 : m_note off = m_note (p_first p)) by congruence.
+  exists i, off. repeat split; auto.
+Qed.
+
+Lemma qnl_channel_chan values dne c P : Forall (good_pair c) P ->
+  Forall (fun m => m_chan m = c) (qnl_channel values dne P).
+Proof.
+  induction P as [|p P IH]; intros HF; cbn [qnl_channel]; [constructor|].
+  inversion HF as [|? ? (i & off & Hs & _ & _ & Con & Coff & _) HF']; subst. specialize (IH HF').
+  destruct (qnl_valid values dne p _); [exact IH|]. rewrite Hs.
+  constructor; [reflexivity|]. constructor; [exact Coff|exact IH].
+Qed.
+
+Lemma kproj_other_chan ch n c l : Forall (fun m => m_chan m = c) l -> c <> ch -> kproj (ch, n) l = [].
+Proof.
+  intros HF Hne. unfold kproj. apply filter_none. eapply Forall_impl; [|exact HF].
+  intros m Hm. cbn beta. rewrite k2_eqb_pair. destruct (Z.eqb_spec ch (m_chan m)); [congruence|].
+  now rewrite andb_false_r.
+Qed.
+
+Lemma kproj_flat_map k {A} (f : A -> list msg) l : kproj k (flat_map f l) = flat_map (fun x => kproj k (f x)) l.
+Proof.
+  induction l as [|x l IH]; cbn [flat_map]; [reflexivity|]. now rewrite kproj_app, IH.
+Qed.
+
+Lemma kproj_channels values dne ch n (ps : list (Z * list pairing)) :
+  uniq ps -> (forall c, Forall (good_pair c) (chan_pairs c ps)) ->
+  kproj (ch, n) (flat_map (fun kv => qnl_channel values dne (snd kv)) ps) =
+  kproj (ch, n) (qnl_channel values dne (chan_pairs ch ps)).
+Proof.
+  unfold uniq. induction ps as [|[c P] ps IH]; intros Hu Hg; [reflexivity|].
+  cbn [map fst] in Hu. inversion Hu as [|? ? Hc Hu']; subst.
+  assert (HgP : Forall (good_pair c) P).
+  { specialize (Hg c). unfold chan_pairs in Hg. cbn [dget] in Hg. now rewrite Z.eqb_refl in Hg. }
+  assert (Hg' : forall c', Forall (good_pair c') (chan_pairs c' ps)).
+  { intros c'. specialize (Hg c'). unfold chan_pairs in *. cbn [dget] in Hg.
+    destruct (Z.eqb_spec c' c) as [E|Hne]; [|exact Hg].
+    rewrite E. rewrite (dget_notin Z.eqb Z.eqb_eq c ps Hc). constructor. }
+  cbn [flat_map snd]. rewrite kproj_app, (IH Hu' Hg').
+  unfold chan_pairs at 2. cbn [dget]. destruct (Z.eqb_spec ch c) as [->|Hne].
+  - unfold chan_pairs. rewrite (dget_notin Z.eqb Z.eqb_eq c ps Hc). cbn [qnl_channel kproj filter]. apply app_nil_r.
+  - rewrite (kproj_other_chan ch n c _ (qnl_channel_chan values dne c P HgP)); [reflexivity|congruence].
+Qed.
+
+(* ------------------------------------------------------------------ C06_main *)
+Lemma kproj_nonnote k l : kproj k (filter (fun m => negb (is_note m)) l) = [].
+Proof.
+  unfold kproj. rewrite filter_filter. apply filter_none. apply Forall_forall. intros m _.
+  now destruct (is_note m).
+Qed.
+
+Lemma qnl_pre_sort l values std dne k :
+  (forall k, wf_key k (sort_abs l) = true) -> nodupb values = true ->
+  kproj k (flat_map (fun kv => qnl_channel values dne (snd kv)) (pairings_sorted NOTE_TYPES std true (sort_abs l)) ++
+           filter (fun m => negb (is_note m)) (sort_abs l)) =
+  qnl_key values dne (kproj k (sort_abs l)).
+Proof.
+  intros Hwf Hb. destruct k as [ch n]. rewrite kproj_app, kproj_nonnote, app_nil_r.
+  destruct (pairings_wf std (sort_abs l) Hwf) as [Hu Hmap].
+  rewrite kproj_channels by (try exact Hu; apply pairings_good; exact Hwf).
+  rewrite qnl_channel_key by (try exact Hb; apply pairings_good; exact Hwf).
+  rewrite Hmap. apply qnl_keyP_cpairs. now apply wf_key_closed_popen.
+Qed.
+
+Lemma wf_key_krun k l : wf_key k l = true ->
+  exists st, krun true KNone (kproj k l) = Some st /\ kst_closed st.
+Proof.
+  unfold wf_key. destruct (krun true KNone (kproj k l)) as [st|]; [|discriminate].
+  intros H. exists st. split; [reflexivity|]. destruct st; cbn; auto; discriminate.
+Qed.
+
+Lemma C06_main : forall l values std dne,
+  wf_abs l = true -> nodupb values = true -> pos_steps values = true ->
+  wf_abs (quantise_note_lengths l values std dne) = true /\
+  forall k, kproj k (quantise_note_lengths l values std dne) = qnl_key values dne (kproj k l).
+Proof.
+  intros l values std dne Hwf Hb Hpos. apply wf_abs_spec in Hwf. destruct Hwf as [_ Hkeys].
+  assert (Hs : forall k, wf_key k (sort_abs l) = true) by (intros k; now apply wf_key_sort_abs).
+  assert (Hsame : forall k, kproj k (sort_abs l) = kproj k l).
+  { intros k. destruct (wf_key_krun k l (Hkeys k)) as (st & Hr & _). now apply kproj_sort_abs with st. }
+  unfold quantise_note_lengths.
+  set (R := flat_map _ _ ++ filter _ _).
+  assert (HR : forall k, kproj k R = qnl_key values dne (kproj k l)).
+  { intros k. unfold R. rewrite qnl_pre_sort by assumption. now rewrite Hsame. }
+  assert (Hrun : forall k, exists st, krun true KNone (kproj k R) = Some st /\ kst_closed st).
+  { intros k. rewrite HR. destruct (wf_key_krun k l (Hkeys k)) as (st & Hr & Hc).
+    exact (qnl_key_wf values dne Hpos _ KNone st I Hr Hc). }
+  split.
+  - apply wf_abs_sort_abs. intros k. destruct (Hrun k) as (st & Hr & Hc). unfold wf_key. rewrite Hr.
+    destruct st; cbn in Hc; auto.
+  - intros k. destruct (Hrun k) as (st & Hr & _). rewrite (kproj_sort_abs k R st Hr). apply HR.
+Qed.
